@@ -636,7 +636,7 @@ structure Good (b : Builder) : Prop where
 
 theorem wrapper_ok_eq {b : Builder} {c : Call α} {f : FCall α} (h : wrapper b c = .ok f) :
     f = forwardCall b c := by
-  unfold wrapper at h
+  unfold wrapper wrapperWith at h
   split at h
   · cases h
   · split at h
@@ -646,8 +646,8 @@ theorem wrapper_ok_eq {b : Builder} {c : Call α} {f : FCall α} (h : wrapper b 
       · injection h with h; exact h.symm
 
 theorem noCapture_mem {b : Builder} (h : noCapture b = true) :
-    (names b.args).contains "validate_attrs" = false ∧
-    (names b.args).contains "implementation" = false := by
+    (names b.args).contains validateName = false ∧
+    (names b.args).contains implName = false := by
   simp only [SpecVerif.C17.noCapture, List.all_eq_true, reservedNames] at h
   constructor
   · rw [Bool.eq_false_iff]; intro hc
@@ -663,7 +663,7 @@ theorem wrapper_ok_iff {b : Builder} (hc : noCapture b = true) (c : Call α) :
         (b.virt ≠ [] → b.checkAttrs = true →
           validateAttrs b (extraKw (compiled b) c) = true)) := by
   obtain ⟨hva, him⟩ := noCapture_mem hc
-  unfold wrapper
+  unfold wrapper wrapperWith
   rw [hva, him]
   by_cases ha : acceptsB (compiled b) c = true
   · by_cases hv : b.virt = []
